@@ -656,6 +656,7 @@ class C09(base.Engine):
     }
 
     def execute(self, case):
+        driver.begin_case(case)
         return judge(case)
 
     def run(self, tier, seed, budget_s):
